@@ -25,7 +25,7 @@ MonInit == [cfg |-> [any_master |-> FALSE, self_addr |-> FALSE, sol_buf |-> 2048
             sol |-> [seq |-> -1, fin |-> TRUE],     \* last solicited fragment
             reads |-> {}]                           \* sequence numbers of READs not answered yet
 
-V(m, reason, l, ctx) == [m EXCEPT !.viol = Append(@, Viol("C12", reason, l, m.sc, ctx))]
+V(m, reason, l, ctx) == [m EXCEPT !.viol = IF Len(@) >= 300 THEN @ ELSE Append(@, Viol("C12", reason, l, m.sc, ctx))]
 
 NoReplyFn == {6, 8, 10, 12}
 RejectCls == {"unkfn", "badobj", "reject"}
